@@ -6,20 +6,157 @@ import (
 	"golang.org/x/tools/go/ssa"
 )
 
+// Time model. A time.Time is represented as the real struct {wall, ext, loc} with wall = 0, loc = nil and ext = the
+// instant in nanoseconds (a term). The clock is frozen by default (every Now() returns the current instant, which only
+// verifAdvanceTime moves, by 10 s per call); verifSymbolicClock() makes every Now() a fresh non-decreasing value.
+// A timer is armed at creation and fires when the harness advances time past it ("an armed timer eventually fires").
+
 type TimerObj struct {
 	stopped bool
 	fired   bool
 	armedAt int
+	ch      *Chan // nil for AfterFunc timers
+	obj     *StructObj
 }
 
 type cmdState struct{ startErr bool }
 
 type WriterStub struct{ name string }
 
+type clockState struct {
+	now      *Term
+	symbolic bool
+}
+
+func (ex *Exec) clk() *clockState {
+	if s, ok := ex.side["clock"]; ok {
+		return s.(*clockState)
+	}
+	s := &clockState{now: ex.ts.Const(64, 1_000_000_000_000_000)}
+	ex.side["clock"] = s
+	return s
+}
+
+func (ex *Exec) timeType() types.Type {
+	for _, p := range ex.prog.AllPackages() {
+		if p.Pkg.Path() == "time" {
+			return p.Members["Time"].(*ssa.Type).Type()
+		}
+	}
+	panic("no time.Time")
+}
+
+func (ex *Exec) timerType() types.Type {
+	for _, p := range ex.prog.AllPackages() {
+		if p.Pkg.Path() == "time" {
+			return p.Members["Timer"].(*ssa.Type).Type()
+		}
+	}
+	panic("no time.Timer")
+}
+
+func (ex *Exec) mkTime(ns *Term) *StructObj {
+	so := ex.newLoc(ex.timeType()).(*StructObj)
+	so.fields[1].(*Cell).v = ns
+	return so
+}
+
+func (ex *Exec) timeNs(v Value) *Term {
+	switch x := v.(type) {
+	case *StructObj:
+		return x.fields[1].(*Cell).v.(*Term)
+	case Ptr:
+		return ex.timeNs(x.loc)
+	}
+	panic(unsupported("time value"))
+}
+
+func (ex *Exec) nowNs() *Term {
+	c := ex.clk()
+	if c.symbolic {
+		n := ex.nondet(64)
+		ex.assume(ex.ts.Bin(OpSLe, c.now, n))
+		ex.assume(ex.ts.Bin(OpSLe, n, ex.ts.Const(64, 4_000_000_000_000_000_000)))
+		c.now = n
+	}
+	return c.now
+}
+
+func (ex *Exec) newTimer(withChan bool) *TimerObj {
+	t := &TimerObj{armedAt: ex.clock}
+	if withChan {
+		t.ch = &Chan{cap: 1, elemT: ex.timeType()}
+	}
+	ex.timers = append(ex.timers, t)
+	return t
+}
+
+// fireTimers delivers every armed channel timer created before the current tick.
+func (ex *Exec) fireTimers() {
+	for _, t := range ex.timers {
+		if t.ch != nil && !t.stopped && !t.fired && ex.clock > t.armedAt {
+			t.fired = true
+			if len(t.ch.q) < t.ch.cap {
+				t.ch.q = append(t.ch.q, ex.mkTime(ex.clk().now))
+			}
+		}
+	}
+}
+
+func (ex *Exec) timerOf(v Value) *TimerObj {
+	switch x := v.(type) {
+	case *TimerObj:
+		return x
+	case Ptr:
+		if x.isNil() {
+			return nil
+		}
+		if t, ok := ex.side[x.loc].(*TimerObj); ok {
+			return t
+		}
+	}
+	return nil
+}
+
 func (ex *Exec) timerIntrinsic(fn *ssa.Function, name string, args []Value) (Value, bool) {
 	switch name {
+	case "time.Now":
+		return ex.mkTime(ex.nowNs()), true
+	case "time.Since":
+		return ex.ts.Bin(OpSub, ex.nowNs(), ex.timeNs(args[0])), true
+	case "time.Until":
+		return ex.ts.Bin(OpSub, ex.timeNs(args[0]), ex.nowNs()), true
+	case "(time.Time).Sub":
+		return ex.ts.Bin(OpSub, ex.timeNs(args[0]), ex.timeNs(args[1])), true
+	case "(time.Time).Before":
+		return ex.ts.Bin(OpSLt, ex.timeNs(args[0]), ex.timeNs(args[1])), true
+	case "(time.Time).After":
+		return ex.ts.Bin(OpSLt, ex.timeNs(args[1]), ex.timeNs(args[0])), true
+	case "(time.Time).Equal":
+		return ex.ts.Eq(ex.timeNs(args[0]), ex.timeNs(args[1])), true
+	case "(time.Time).IsZero":
+		return ex.ts.Eq(ex.timeNs(args[0]), ex.ts.Const(64, 0)), true
+	case "(time.Time).UnixMilli":
+		return ex.ts.Bin(OpSDiv, ex.timeNs(args[0]), ex.ts.Const(64, 1_000_000)), true
+	case "(time.Time).UnixNano":
+		return ex.timeNs(args[0]), true
+	case "(time.Time).Unix":
+		return ex.ts.Bin(OpSDiv, ex.timeNs(args[0]), ex.ts.Const(64, 1_000_000_000)), true
+	case "(time.Time).Add":
+		return ex.mkTime(ex.ts.Bin(OpAdd, ex.timeNs(args[0]), args[1].(*Term))), true
+	case "time.UnixMilli":
+		return ex.mkTime(ex.ts.Bin(OpMul, args[0].(*Term), ex.ts.Const(64, 1_000_000))), true
+	case "time.NewTimer":
+		t := ex.newTimer(true)
+		so := ex.newLoc(ex.timerType()).(*StructObj)
+		so.fields[0].(*Cell).v = t.ch
+		t.obj = so
+		ex.side[Loc(so)] = t
+		return Ptr{loc: so}, true
+	case "time.After":
+		return ex.newTimer(true).ch, true
 	case "time.AfterFunc":
-		t := &TimerObj{armedAt: ex.clock}
+		t := ex.newTimer(false)
 		f := args[1]
 		ex.spawn(func() {
 			ex.wait(func() bool { return t.stopped || ex.clock > t.armedAt }, "timer")
@@ -28,15 +165,22 @@ func (ex *Exec) timerIntrinsic(fn *ssa.Function, name string, args []Value) (Val
 				ex.callAny(f, nil)
 			}
 		})
-		ex.timers = append(ex.timers, t)
 		return t, true
 	case "(*time.Timer).Stop":
-		t, _ := args[0].(*TimerObj)
+		t := ex.timerOf(args[0])
 		if t == nil {
-			panic(goPanic{"nil timer"})
+			panic(goPanic{"nil pointer dereference (timer)"})
 		}
 		was := !t.stopped && !t.fired
 		t.stopped = true
+		return ex.ts.Bool(was), true
+	case "(*time.Timer).Reset":
+		t := ex.timerOf(args[0])
+		if t == nil {
+			panic(goPanic{"nil pointer dereference (timer)"})
+		}
+		was := !t.stopped && !t.fired
+		t.stopped, t.fired, t.armedAt = false, false, ex.clock
 		return ex.ts.Bool(was), true
 	case "os/exec.Command":
 		c := &cmdState{}
@@ -51,9 +195,20 @@ func (ex *Exec) timerIntrinsic(fn *ssa.Function, name string, args []Value) (Val
 		}
 		return Iface{}, true
 	}
-	if fn.Pkg == ex.pkg && fn.Name() == "verifAdvanceTime" {
-		ex.clock++
-		return nil, true
+	if fn.Pkg == ex.pkg {
+		switch fn.Name() {
+		case "verifAdvanceTime":
+			ex.clock++
+			c := ex.clk()
+			if !c.symbolic {
+				c.now = ex.ts.Bin(OpAdd, c.now, ex.ts.Const(64, 10_000_000_000))
+			}
+			ex.fireTimers()
+			return nil, true
+		case "verifSymbolicClock":
+			ex.clk().symbolic = true
+			return nil, true
+		}
 	}
 	return nil, false
 }
